@@ -120,6 +120,12 @@ def labelled():
         for qy in ('name from . where %s and %s' % (never, bad), 'name from . where %s or %s' % (always, bad), 'name from . where (%s and (%s or %s)) or %s' % (never, always, bad, always),
                    'name from . where not (%s or %s)' % (always, bad), 'name from /work/ks/nonexistent where %s' % bad, 'name from . where %s and %s limit 1' % (bad, never)):
             out.append(([qy], label, 'diag'))
+    # ... also when the same text was a pattern of LIKE (always valid there) earlier in the clause
+    for txt in ('*.bak', '%(1%', '((', '[a'):
+        for qy in ("name from . where %s and name like '%s' and name rx '%s'" % (never, txt, txt), "name from . where %s or name notlike '%s' or name rx '%s'" % (always, txt, txt),
+                   "name from . where name like '%s' and %s and name notrx '%s'" % (txt, never, txt), "name from . where (name like '%s' or %s) or name =~ '%s'" % (txt, always, txt),
+                   "name from . where name = '%s' and name like '%s' and %s and name rx '%s'" % (txt, txt, never, txt)):
+            out.append(([qy], 'bad-regex', 'diag'))
     for qy in ('name from . where modified > garbage', "name from . where modified = '2021-13-45'", "name from . where modified = '2021-01-01 25:00'",
                "name from . where modified = '2021-02-30'", "name from . where modified > '2021-01-01 10:61'",
                "name from . where modified < '2021-01-01 10:10:99'", 'name from . where modified = x', "name from . where modified = '+x'",
